@@ -30,6 +30,7 @@ import (
 
 	"github.com/tochemey/goakt/v4/internal/internalpb"
 	inet "github.com/tochemey/goakt/v4/internal/net"
+	"github.com/tochemey/goakt/v4/internal/verifhook"
 )
 
 // errCoalescerClosed is returned from submit when the coalescer has been shut
@@ -128,6 +129,7 @@ func newCoalescer(dest string, nc *inet.Client, cfg coalescingConfig) *coalescer
 func (c *coalescer) submit(ctx context.Context, msg *internalpb.RemoteMessage) error {
 	// Pre-check shutdown so a submit after close returns immediately rather
 	// than racing with a context that has no deadline.
+	verifhook.At("coal.submit.check", c, 0, 0)
 	select {
 	case <-c.done:
 		return errCoalescerClosed
@@ -136,6 +138,7 @@ func (c *coalescer) submit(ctx context.Context, msg *internalpb.RemoteMessage) e
 
 	// Fast path: space immediately available. Keeps the happy path a single
 	// channel op, avoiding the cost of arming ctx.Done() / c.done selects.
+	verifhook.At("coal.submit.fast", c, 0, 0)
 	select {
 	case c.in <- msg:
 		return nil
@@ -144,6 +147,7 @@ func (c *coalescer) submit(ctx context.Context, msg *internalpb.RemoteMessage) e
 
 	// Slow path: block on whichever of (space, ctx cancel, shutdown) fires
 	// first. This is the backpressure signal to the caller.
+	verifhook.At("coal.submit.slow", c, 0, 0)
 	select {
 	case c.in <- msg:
 		return nil
@@ -158,6 +162,7 @@ func (c *coalescer) submit(ctx context.Context, msg *internalpb.RemoteMessage) e
 // the goroutine returns. Safe to call multiple times.
 func (c *coalescer) close() {
 	c.closeOnce.Do(func() { close(c.done) })
+	verifhook.At("coal.close.wait", c, 0, 0)
 	c.wg.Wait()
 }
 
@@ -177,6 +182,7 @@ func (c *coalescer) run() {
 			return
 		}
 
+		verifhook.At("coal.run.flush", c, int64(len(batch)), 0)
 		req := &internalpb.RemoteTellRequest{RemoteMessages: batch}
 		// Per-message propagation metadata is already carried inside each
 		// RemoteMessage, so the batch context only needs a transport deadline.
@@ -208,6 +214,7 @@ func (c *coalescer) run() {
 	// buffer into batch without waiting. Stops at maxBatch.
 	drainReady := func() {
 		for len(batch) < c.maxBatch {
+			verifhook.At("coal.run.drain", c, int64(len(batch)), 0)
 			select {
 			case m := <-c.in:
 				batch = append(batch, m)
@@ -218,6 +225,7 @@ func (c *coalescer) run() {
 	}
 
 	for {
+		verifhook.At("coal.run.select", c, int64(len(batch)), 0)
 		select {
 		case <-c.done:
 			// Drain anything still buffered and exit. Submit refuses new
@@ -225,6 +233,7 @@ func (c *coalescer) run() {
 			// set at this point.
 			drainReady()
 			flush()
+			verifhook.At("coal.run.exit", c, 0, 0)
 			return
 		case m := <-c.in:
 			batch = append(batch, m)
